@@ -3,6 +3,7 @@ package vmap
 
 import (
 	"cmp"
+	"fmt"
 	"slices"
 
 	"verif/vsched"
@@ -15,12 +16,12 @@ var fact = []int{1, 1, 2, 6, 24}
 // offered in ascending and descending order only).
 //
 //go:norace
-func Keys[K cmp.Ordered, V any](m map[K]V) []K {
+func Keys[K comparable, V any](m map[K]V) []K {
 	ks := make([]K, 0, len(m))
 	for k := range m {
 		ks = append(ks, k)
 	}
-	slices.Sort(ks)
+	sortKeys(ks)
 	n := len(ks)
 	if n <= 1 {
 		return ks
@@ -43,4 +44,31 @@ func Keys[K cmp.Ordered, V any](m map[K]V) []K {
 		rest = append(append([]K{}, rest[:j]...), rest[j+1:]...)
 	}
 	return out
+}
+
+// sortKeys: a canonical order for any comparable key type - the natural order for the ordered basic kinds, the
+// order of the printed form otherwise (struct, array, pointer-free interface keys); only determinism matters.
+//
+//go:norace
+func sortKeys[K comparable](ks []K) {
+	switch x := any(ks).(type) {
+	case []string:
+		slices.Sort(x)
+	case []int:
+		slices.Sort(x)
+	case []int64:
+		slices.Sort(x)
+	case []uint64:
+		slices.Sort(x)
+	case []uint32:
+		slices.Sort(x)
+	case []int32:
+		slices.Sort(x)
+	case []uint:
+		slices.Sort(x)
+	case []float64:
+		slices.Sort(x)
+	default:
+		slices.SortStableFunc(ks, func(a, b K) int { return cmp.Compare(fmt.Sprintf("%#v", a), fmt.Sprintf("%#v", b)) })
+	}
 }
